@@ -102,6 +102,9 @@ class Cli:
         dict_keys_fields: List[str] = namespace.dict_keys_fields
         preamble: str = namespace.preamble
 
+        # Register optional types first so that a type registered by --datetime can still be disabled by name
+        if self.enable_datetime:
+            register_datetime_classes()
         for name in namespace.disable_str_serializable_types:
             registry.remove_by_name(name)
 
@@ -111,8 +114,6 @@ class Cli:
                       dict_keys_regex, dict_keys_fields, disable_unicode_conversion, preamble)
 
     def run(self):
-        if self.enable_datetime:
-            register_datetime_classes()
         generator = MetadataGenerator(
             dict_keys_regex=self.dict_keys_regex,
             dict_keys_fields=self.dict_keys_fields
